@@ -150,15 +150,16 @@ def session(binary, root, files, script, probe):
     out = {"alive": True}
     try:
         s.initialize()
-        ver = 1
+        vers = {}                     # version numbers count per document and start again at 1 when it is opened again
         for step in script:
             kind, name = step[0], step[1]
             uri = "file://" + os.path.join(root, name)
             if kind == "open":
                 texts[name] = step[2]
+                vers[name] = ver = 1
                 s.notify("textDocument/didOpen", {"textDocument": {"uri": uri, "languageId": "oal", "version": ver, "text": step[2]}})
             elif kind == "change":
-                ver += 1
+                vers[name] = ver = vers.get(name, 1) + 1
                 changes = []
                 for rng, new in step[2]:
                     texts[name] = apply_edit(texts[name], rng, new)
